@@ -8,12 +8,12 @@
    the theorem [printed_reparses] of DESIGN (parser model of C16) is not
    proved here.  That the cover handed to the printer is a cover by
    implicants is C09 ([C09_minimize_sound]). *)
-From Coq Require Import List ZArith Bool.
+From Coq Require Import List ZArith Bool Lia.
 Import ListNotations.
 From Omega Require Import L5Cover.Boxes L5Cover.BoxesProofs L5Cover.ListExpr
   L5Cover.ListExprProofs.
 From Coq Require Import Permutation.
-From Omega Require Import L0Bits.Bits L5Cover.ListExprNorm.
+From Omega Require Import L0Bits.Bits L5Cover.ListExprNorm L5Cover.ListExprTotal.
 From OmegaGen Require Import BitsGen ListExprGen.
 From OmegaGP Require Import ListExprBridge.
 Open Scope Z_scope.
@@ -270,6 +270,69 @@ Theorem C08_translated_clip_preserves : forall a b u v x r,
   end.
 Proof. exact translated_clip_preserves. Qed.
 
+(* ------------------------------------------------------------ totality
+   Every semantic theorem above is conditional on the printer RETURNING
+   ([... = Some e]).  It returns (no _check_type_hint / _clip_subrange
+   exception) for every list of boxes that are [printable]: of the right
+   length, with non-empty intervals and, when the boxes are clipped to the
+   type hints (show_dom in effect), non-empty hints that every box meets.
+   (A box of the cover that is disjoint from the hints - possible only when f
+   has points outside care - makes the real code raise `assert not disjoint
+   ranges`; such inputs are the `rejected` class of the correspondence.) *)
+Theorem C08_dumps_cover_total :
+  forall limits doms care care_is_true (show_dom : bool) show_limits K,
+  Forall (printable (if show_dom then care_implies_hints limits doms care
+                     else false) doms) K ->
+  exists e, dumps_cover limits doms care care_is_true show_dom show_limits K
+            = Some e.
+Proof. exact dumps_cover_total. Qed.
+
+(* and so does the TRANSLATED printer *)
+Theorem C08_translated_printer_total :
+  forall (natsorted_names : list var -> list var)
+         (natsorted_forms : list expr -> list expr),
+  (forall l, Permutation l (natsorted_forms l)) ->
+  forall (xvars : list var) (vars : table) (limits doms : list ival),
+  natsorted_names xvars = seq 0 (length limits) ->
+  xvars <> [] ->
+  length doms = length limits ->
+  (forall i, (i < length limits)%nat ->
+     bitfield_limits (vars i) = Some (nth i limits (0, 0))) ->
+  (forall i, (i < length limits)%nat ->
+     h_dom (vars i) = nth i doms (0, 0)) ->
+  forall care care_is_true (show_dom : bool) show_limits comment K,
+  Forall (printable (if show_dom then care_implies_hints limits doms care
+                     else false) doms) K ->
+  exists e,
+    cov_dumps_cover natsorted_names natsorted_forms
+      (seq 0 (length limits), map prod_of K) vars
+      show_dom show_limits comment xvars
+      (care_implies_hints limits doms care) care_is_true = Some e.
+Proof.
+  intros nn nf Hp xvars vars limits doms Hs Hne Hlen Hlim Hdom
+    care cit show_dom show_limits comment K HK.
+  assert (Forall (fun b => length b = length limits) K) as HL.
+  { apply Forall_forall. intros b Hb. rewrite Forall_forall in HK.
+    destruct (HK b Hb) as [E _]. rewrite E. exact Hlen. }
+  destruct (dumps_cover_is_translated_code nn nf Hp xvars vars limits doms
+              Hs Hne Hlen Hlim Hdom care cit show_dom show_limits comment K HL)
+    as [K' [HP E]].
+  destruct (dumps_cover_total limits doms care cit show_dom show_limits K'
+              (printable_perm _ doms K K' HP HK)) as [e He].
+  rewrite He in E.
+  destruct (cov_dumps_cover nn nf _ vars show_dom show_limits comment xvars _ cit)
+    as [g|]; [exists g; reflexivity|discriminate].
+Qed.
+
+(* non-vacuity: the boxes of C08_instance are printable with clipping on *)
+Example C08_printable_instance :
+  Forall (printable true [(0, 2); (0, 1)])
+         [[(0,0);(0,1)]; [(2,3);(1,1)]].
+Proof.
+  repeat constructor; unfold proper, meets; cbn [fst snd]; try lia;
+    intros _; repeat constructor; unfold proper, meets; cbn [fst snd]; lia.
+Qed.
+
 (* non-vacuity of the hypotheses of the tie-T theorems *)
 Example C08_translated_instance :
   let limits := [(0, 3); (0, 1)] in
@@ -312,3 +375,5 @@ Print Assumptions C08_list_limits_is_translated_code.
 Print Assumptions C08_list_type_hints_is_translated_code.
 Print Assumptions C08_translated_dnf_equiv_on_care.
 Print Assumptions C08_translated_clip_preserves.
+Print Assumptions C08_dumps_cover_total.
+Print Assumptions C08_translated_printer_total.
